@@ -20,8 +20,14 @@ Spec == Init /\ [][Next]_vars
 \* every element reachable by composition is a listed operation (closure), seen from the walk
 Closed == op \in NormSet(ImplSet(g))
 \* the C16 axioms on the table as a whole
+\* ... and the table as a state built for the group carries it (after its JSON form has been
+\* read back), paired with the family of the cells the library builds for the group
+StoredOK == /\ Impl[g].stored = Impl[g].ops
+            /\ Len(Impl[g].stateFamilies) = 2
+            /\ \A i \in 1..Len(Impl[g].stateFamilies) : Impl[g].stateFamilies[i] = RefFamily(g)
 TableOK == /\ Impl[g].integral
            /\ IsGroupTable(ImplSet(g), g, Impl[g].family)
+           /\ StoredOK
 ReferenceOK == RefOK
 Emit == PrintT(<<"EMIT", ToJson([group |-> g, op |-> op, order |-> Order(g),
                                   content |-> Content(NormSet(ImplSet(g)))])>>)
